@@ -669,6 +669,163 @@ func cleanCase(w *mon.Worker, idx int, o cleanOpts) {
 	close(ss.release)
 }
 
+// connectCtxCase: the context handed to NewConnection bounds the connecting (an application
+// typically gives it a second or two), not the session: "afterwards every packet sent in either
+// direction is received" holds just the same once that context's deadline has passed or it was
+// cancelled. Packets travel both ways before the deadline, after it, and again after the client's
+// first own ping (3 s into the session); the reference peer reads every frame strictly.
+func connectCtxCase(w *mon.Worker, idx int) {
+	rng := w.Rng("connect-ctx", idx)
+	id := adnl.NewIdentity(rng.Bytes(32))
+	ip := caseIP()
+	ns, _ := nonceSource(rng.Fork("nonce", 0))
+	srv, ss, err := startServer(ip, id, ns, nil, true, false)
+	if err != nil {
+		w.HarnessError("listen: " + err.Error())
+		return
+	}
+	defer srv.Close()
+	pr := startProbe()
+	defer pr.Stop()
+	budget := time.Duration(rng.Range(600, 1500)) * time.Millisecond
+	mode := []string{"deadline", "deadline+cancel-at-once", "deadline+cancel-after-it"}[idx%3]
+	wit := map[string]any{"case": idx, "section": "connect-context", "server_seed": mon.Hex(id.Seed[:]), "connect_budget_ms": budget.Milliseconds(), "context": mode}
+	ctx, cancel := context.WithTimeout(context.Background(), budget)
+	defer cancel()
+	t0 := time.Now()
+	var conn *liteclient.Connection
+	pn := mon.Guard(func() { conn, err = liteclient.NewConnection(ctx, id.Pub[:], srv.Addr()) })
+	if pn != nil {
+		wit["panic"], wit["stack"] = pn.Value, pn.Stack
+		w.Violation("panic@"+pn.Site+"/NewConnection", wit)
+		return
+	}
+	if err != nil {
+		if el := time.Since(t0); el > budget/2 || pr.Max() > 100*time.Millisecond {
+			w.Inconclusive("handshake did not fit into the connect budget on a loaded machine")
+			return
+		}
+		wit["client_error"] = err.Error()
+		w.Violation("handshake-failed@clean-stream", wit)
+		return
+	}
+	if mode == "deadline+cancel-at-once" {
+		cancel()
+	}
+	col := collect(conn)
+	var peer *adnl.Peer
+	for i := 0; i < 200 && peer == nil; i++ {
+		ss.mu.Lock()
+		peer = ss.peer
+		ss.mu.Unlock()
+		if peer == nil {
+			time.Sleep(5 * time.Millisecond)
+		}
+	}
+	if peer == nil {
+		w.HarnessError("reference server reported no session although the client's handshake completed")
+		return
+	}
+	var c2s, s2c [][]byte
+	exchange := func(phase string) bool {
+		n := rng.Range(2, 6)
+		for i := 0; i < n; i++ {
+			up, down := payload(rng, pickSize(rng, false)), payload(rng, pickSize(rng, false))
+			var e error
+			pn := mon.Guard(func() {
+				var pk liteclient.Packet
+				if pk, e = liteclient.NewPacket(up); e == nil {
+					e = conn.Send(pk)
+				}
+			})
+			wit["phase"], wit["since_connect_ms"] = phase, time.Since(t0).Milliseconds()
+			if pn != nil {
+				wit["panic"], wit["stack"] = pn.Value, pn.Stack
+				w.Violation("panic@"+pn.Site+"/Send", wit)
+				return false
+			}
+			if e != nil {
+				if pr.Max() > 500*time.Millisecond {
+					w.Inconclusive("send failed on a stalled machine")
+					return false
+				}
+				wit["error"] = e.Error()
+				w.Violation("send-error@clean-stream/"+phase, wit)
+				return false
+			}
+			c2s = append(c2s, up)
+			if e := peer.Send(ns(), down); e != nil {
+				wit["server_write_error"] = e.Error()
+				w.Violation("connection-lost@clean-stream/"+phase, wit)
+				return false
+			}
+			s2c = append(s2c, down)
+		}
+		okS, okC := ss.waitRecv(len(c2s), 8*time.Second), col.waitCount(len(s2c), 8*time.Second)
+		ss.mu.Lock()
+		recv, rerr := ss.recv, ss.recvErr
+		ss.mu.Unlock()
+		got := col.snapshot()
+		if rerr != nil && rerr != io.EOF {
+			wit["reference_error"], wit["frames_before"] = rerr.Error(), len(recv)
+			w.Violation("client-frame-rejected-by-reference/"+phase+"/"+frameErrClass(rerr), wit)
+			return false
+		}
+		for i := 0; i < len(recv) && i < len(c2s); i++ {
+			if !bytes.Equal(recv[i], c2s[i]) {
+				wit["index"], wit["sent"], wit["got"] = i, mon.HexTrunc(c2s[i], 64), mon.HexTrunc(recv[i], 64)
+				w.Violation("payload-mismatch@client->server/"+phase, wit)
+				return false
+			}
+		}
+		for i := 0; i < len(got) && i < len(s2c); i++ {
+			if !bytes.Equal(got[i], s2c[i]) {
+				wit["index"], wit["sent"], wit["got"] = i, mon.HexTrunc(s2c[i], 64), mon.HexTrunc(got[i], 64)
+				w.Violation("payload-mismatch@server->client/"+phase, wit)
+				return false
+			}
+		}
+		if len(recv) > len(c2s) || len(got) > len(s2c) {
+			w.Violation("surplus-packet@"+phase, wit)
+			return false
+		}
+		if !okS || !okC {
+			if pr.Max() > 500*time.Millisecond {
+				w.Inconclusive("packets not delivered within 8 s on a stalled machine")
+				return false
+			}
+			wit["received_by_server"], wit["sent_by_client"], wit["delivered_to_client"], wit["sent_by_server"] = len(recv), len(c2s), len(got), len(s2c)
+			w.Violation("not-delivered@clean-stream/"+phase, wit)
+			return false
+		}
+		w.Eval(fmt.Sprintf("connect-ctx/%d/%s/%d/%d", idx, phase, len(c2s), len(s2c)))
+		w.Seen("connect_context_phases", mode+"/"+phase)
+		return true
+	}
+	if time.Since(t0) < budget/2 && !exchange("before-the-connect-deadline") {
+		return
+	}
+	time.Sleep(time.Until(t0.Add(budget + 300*time.Millisecond)))
+	if mode == "deadline+cancel-after-it" {
+		cancel()
+	}
+	if !exchange("after-the-connect-deadline") {
+		return
+	}
+	time.Sleep(time.Until(t0.Add(pingEvery + 500*time.Millisecond)))
+	if !exchange("after-the-first-own-ping") {
+		return
+	}
+	ss.mu.Lock()
+	pings := ss.pings
+	ss.mu.Unlock()
+	w.Count("connect_context_cases", 1)
+	w.Count("pings_after_the_connect_deadline", int64(pings))
+	close(ss.release)
+}
+
+const pingEvery = 3 * time.Second
+
 // concurrentCase: several goroutines send on one connection at the same time. The stream cipher
 // state carries across packets, so the frames must reach the socket in the order in which they
 // took key stream: the reference peer must read every frame as valid and receive exactly the
@@ -789,7 +946,9 @@ func concurrentCase(w *mon.Worker, idx int) {
 		w.Count("pings_in_the_middle_of_concurrent_senders", int64(pings))
 		w.Count("concurrent_cases_sending_without_pause_for_6.5s", 1)
 	}
-	if pr.Max() > 500*time.Millisecond {
+	// a stall only matters when something went wrong that a stall can cause (tongo's own 10 s silence
+	// timer cutting the session, a wait running out); a run that delivered everything is judged as it is
+	if failed := (rerr != nil && rerr != io.EOF) || firstErr != nil || !ok; failed && pr.Max() > 500*time.Millisecond {
 		w.Inconclusive("concurrent-senders case on a stalled machine")
 		return
 	}
@@ -1608,6 +1767,7 @@ func workers() map[string]func(*mon.Worker) {
 		"concurrent": func(w *mon.Worker) { runSpan(w, func(i int) { concurrentCase(w, i) }) },
 		"parse":      func(w *mon.Worker) { runSpan(w, func(i int) { parseCase(w, i) }) },
 		"parsebig":   func(w *mon.Worker) { runSpan(w, func(i int) { parseBigCase(w, i) }) },
+		"connectctx": func(w *mon.Worker) { runSpan(w, func(i int) { connectCtxCase(w, i) }) },
 	}
 }
 
@@ -1693,7 +1853,7 @@ func main() {
 		"faulty runs: exactly one fault (bit flip, byte substitution, truncation, duplication, deletion) at a chosen offset of the server->client stream (handshake confirmation, or length/nonce/payload/checksum of the k-th frame) or of the client's handshake; the sequence delivered on Responses() must be exactly the frames before the first touched one, each equal to what was sent (one evaluation per faulty run, distinct = distinct (kind, region, frame, offset)); " +
 		"ParsePacket: streams of three reference-encrypted frames with every single-bit flip, one substitution per byte, every truncation, and awkward readers (one evaluation per mutated stream); " +
 		"large frames: one faulty run in twelve aims its fault at a frame of 100 KiB..8 MiB-64, and ParsePacket streams holding frames above 64 KiB and above 1 MiB get sampled bit flips in every region; " +
-		"payloads that begin with the constructor id of tcp.ping / tcp.pong / tcp.authentificationNonce without being such a message travel like any other payload; every sixth concurrent-senders case keeps sending without a pause for 6.5 s so that the client's own pings fall into the middle of the senders' frames"
+		"payloads that begin with the constructor id of tcp.ping / tcp.pong / tcp.authentificationNonce without being such a message travel like any other payload; every sixth concurrent-senders case keeps sending without a pause for 6.5 s so that the client's own pings fall into the middle of the senders' frames; connections made with a connect context of 0.6..1.5 s carry packets both ways before that deadline, after it (context left alone, cancelled at once, or cancelled later) and after the client's first own ping"
 	R.Assume("reference peer harness/ref/adnl implements ADNL-over-TCP as described at the top of ref/adnl/adnl.go; pinned only by its self-check (RFC 7748 base point, DH symmetry, client half vs server half) and by interoperating with tongo")
 	R.Assume("an accepted corrupted frame by hash collision (2^-256) is ignored; over-limit frames (> 8 MiB) may be refused or delivered intact")
 	if err := adnl.SelfCheck(); err != nil {
@@ -1724,6 +1884,7 @@ func main() {
 	split("faulty", R.N(200, 10000), R.N(20, 100))
 	split("parse", R.N(3, 24), 1)
 	split("parsebig", R.N(2, 8), 1)
+	split("connectctx", R.N(3, 12), 1)
 	R.RunJobs(jobs, mon.ChildOpts{Parallel: 14, Timeout: 10 * time.Minute,
 		Env: []string{"GORACE=halt_on_error=0 exitcode=0 log_path=" + filepath.Join(raceDir, "race")}},
 		func(c mon.Crash) {
